@@ -431,12 +431,12 @@ class Wtp:
         return self.db_path.with_stem(self.db_path.stem + "_backup")
 
     def backup_db(self) -> None:
-        self.backup_db_path.unlink(True)
         self.db_conn.commit()
         # Write the copy under a temporary name and rename it when it is
         # complete: create_db() replaces the database by the backup file
         # whenever one exists, so an interrupted backup must never be visible
-        # under the backup name.
+        # under the backup name.  An earlier backup stays in place until the
+        # rename replaces it: it is the last completed one until then.
         tmp_path = self.backup_db_path.with_name(
             self.backup_db_path.name + ".tmp"
         )
